@@ -116,13 +116,17 @@ class Flow(object):
                       if p.names is not UNRESOLVED]  # type: list[t.Mapping[str, Name]] # type: ignore[misc]
             for p in pnames:
                 nameset.update(p)
-            for n in nameset:
-                nrow = set(r.get(n, UndefinedName(n)) for r in pnames)
+            for n in sorted(nameset):
+                nrow = []  # type: list[Name | MultiName | UndefinedName]
+                for r in pnames:
+                    alt = r.get(n, UndefinedName(n))
+                    if alt not in nrow:
+                        nrow.append(alt)
                 if len(nrow) == 1:
                     # single undefined names is not possible
-                    names[n] = list(nrow)[0]  # type: ignore[assignment]
+                    names[n] = nrow[0]  # type: ignore[assignment]
                 else:
-                    names[n] = MultiName(list(nrow))
+                    names[n] = MultiName(nrow)
             return names
         else:
             pscope = self.scope.parent
